@@ -22,3 +22,299 @@ pub(crate) fn any_operating() -> OperatingState {
         OperatingState::Clear
     }
 }
+
+use crate::dp::peripheral::verif::{any_fdl, any_peripheral, inv_dp, ref_goes_offline, ref_will_send, snap, PSnap};
+use crate::dp::peripheral_set::verif::{mk_slot, peek, slots};
+use crate::fdl::{FdlApplication, FdlActiveStation, HighPrioOnly, TelegramTx, DataTelegramHeader, FunctionCode, FrameCountBit, RequestType};
+
+const MAXS: usize = 4;
+
+fn occupied_from(m: &DpMaster, from: usize) -> Option<usize> {
+    let n = slots(&m.peripherals);
+    let mut i = from;
+    while i < n {
+        if peek(&m.peripherals, i).is_some() {
+            return Some(i);
+        }
+        i += 1;
+    }
+    None
+}
+
+/// Does the cycle index `c` denote slot `s` (first occupied slot at or after the index)?
+fn resolves_to(m: &DpMaster, c: CycleState, s: usize) -> bool {
+    match c {
+        CycleState::DataExchange(j) => occupied_from(m, usize::from(j)) == Some(s),
+        CycleState::CycleCompleted => false,
+    }
+}
+
+/// One `transmit_telegram` call of a DP master with symbolic slots; see DESIGN §4 C14.
+fn check_master_transmit(m: &mut DpMaster, fdl: &FdlActiveStation) {
+    let n = slots(&m.peripherals);
+    let mut pre: [Option<PSnap>; MAXS] = [None; MAXS];
+    let mut sends = [false; MAXS];
+    let mut off = [false; MAXS];
+    let mut i = 0;
+    while i < n {
+        if let Some(p) = peek(&m.peripherals, i) {
+            kani::assume(inv_dp(p, fdl));
+            pre[i] = Some(snap(p));
+            sends[i] = ref_will_send(p, fdl);
+            off[i] = ref_goes_offline(p, fdl);
+        }
+        i += 1;
+    }
+    let pre_cycle = m.state.cycle_state;
+    let pre_lgc = m.state.last_global_control;
+    let op = m.state.operating_state;
+    let hp = if kani::any() { HighPrioOnly::Yes } else { HighPrioOnly::No };
+    let now_us: u32 = kani::any();
+    let now = crate::time::Instant::from_micros(now_us);
+    if let Some(t) = pre_lgc {
+        kani::assume(t <= now);
+    }
+
+    let mut buf = [0u8; 24];
+    let res = m.transmit_telegram(now, fdl, TelegramTx::new(&mut buf), hp);
+    kani::cover!(true, "cover: the master's turn ends");
+
+    // post snapshots, per-slot relation
+    let events = m.state.last_events.clone();
+    let mut transmitted: Option<usize> = None;
+    let mut n_tx = 0;
+    let mut n_off = 0;
+    let mut off_slot = 0usize;
+    let mut last_changed: Option<usize> = None;
+    let mut i = 0;
+    while i < n {
+        if let Some(p) = peek(&m.peripherals, i) {
+            let a = pre[i].unwrap();
+            let b = snap(p);
+            if b != a {
+                last_changed = Some(i);
+            }
+            let unchanged = b == a;
+            let declined = !sends[i] && b.rc == 0 && b.address == a.address && b.diag_needed == a.diag_needed
+                && if off[i] { !b.live } else { b.state == a.state && b.fcb == a.fcb };
+            let sent = sends[i] && b.rc == a.rc + 1 && b.state == a.state && b.fcb == a.fcb && b.address == a.address;
+            assert!(unchanged || declined || sent, "C14/turn: a peripheral is untouched, declines its turn, or sends exactly one request");
+            if sent && !unchanged {
+                transmitted = Some(i);
+                n_tx += 1;
+            }
+            if a.live && !b.live {
+                n_off += 1;
+                off_slot = i;
+            }
+            assert!(inv_dp(p, fdl), "C03/inv: representation invariant preserved for every slot");
+        }
+        i += 1;
+    }
+    assert!(n_tx <= 1, "C14/turn: at most one request per call");
+
+    // ---- events: nothing lost, nothing invented -------------------------------------------
+    assert!(n_off <= 1, "C14/events: at most one peripheral event can be reported per call, so at most one may occur");
+    match events.peripheral {
+        Some((hd, ev)) => {
+            assert!(n_off == 1 && ev == crate::dp::PeripheralEvent::Offline, "C14/events: the only event of a transmit turn is Offline, reported iff a peripheral went offline");
+            assert!(hd.address() == pre[off_slot].unwrap().address, "C14/events: the event names the peripheral that went offline");
+            kani::cover!(true, "cover: Offline event reported from transmit_telegram");
+        }
+        None => assert!(n_off == 0, "C14/events: an Offline transition is never lost"),
+    }
+
+    // ---- what was expected ---------------------------------------------------------------------
+    if op == OperatingState::Stop {
+        assert!(res.is_none() && last_changed.is_none(), "C14/stop: nothing happens in Stop");
+        return;
+    }
+    let gc_due = hp == HighPrioOnly::No
+        && match pre_lgc {
+            None => true,
+            Some(t) => (now - t) >= fdl.parameters().slot_time() * 50,
+        };
+    if gc_due {
+        // Global control: DA 127, DSAP 58, SSAP 62, SDN low, [state, 0]
+        let h = DataTelegramHeader {
+            da: 127,
+            sa: fdl.parameters().address,
+            dsap: Some(58),
+            ssap: Some(62),
+            fc: FunctionCode::Request { fcb: FrameCountBit::Inactive, req: RequestType::SdnLow },
+        };
+        let mut expect = [0u8; 24];
+        let cmd = if op == OperatingState::Clear { 0x02 } else { 0x00 };
+        let elen = ref_encode(&h, 2, |i| if i == 0 { cmd } else { 0 }, &mut expect);
+        match res {
+            Some(r) => {
+                assert!(r.bytes_sent() == elen && r.expects_reply().is_none(), "C14/global-control: global control is an unacknowledged broadcast");
+                let mut i = 0;
+                while i < elen {
+                    assert!(buf[i] == expect[i], "C14/global-control: global control bytes equal the reference frame");
+                    i += 1;
+                }
+            }
+            None => assert!(false, "C14/global-control: global control is sent when it is due"),
+        }
+        assert!(m.state.cycle_state == pre_cycle && last_changed.is_none(), "C14/global-control: global control does not touch the cycle or any peripheral");
+        assert!(m.state.last_global_control == Some(now), "C14/global-control: the send time is recorded");
+        kani::cover!(pre_lgc.is_some(), "cover: periodic global control");
+        return;
+    }
+    assert!(m.state.last_global_control == pre_lgc, "C14/global-control: no global control bookkeeping when none is sent");
+
+    let idx0 = match pre_cycle {
+        CycleState::CycleCompleted => {
+            assert!(res.is_none() && last_changed.is_none(), "C14/cycle: after a completed cycle the turn ends once without serving anybody");
+            assert!(m.state.cycle_state == CycleState::DataExchange(0), "C14/cycle: the next cycle starts at the first slot");
+            assert!(!events.cycle_completed, "C14/cycle: 'cycle completed' is not reported a second time");
+            kani::cover!(true, "cover: turn after a completed cycle");
+            return;
+        }
+        CycleState::DataExchange(j) => usize::from(j),
+    };
+    // first slot at/after the index that wants to send / that goes offline
+    let mut first_sender: Option<usize> = None;
+    let mut i = n;
+    while i > idx0 {
+        i -= 1;
+        if pre[i].is_some() && sends[i] {
+            first_sender = Some(i);
+        }
+    }
+    let mut i = 0;
+    while i < idx0 && i < n {
+        if let (Some(a), Some(p)) = (pre[i], peek(&m.peripherals, i)) {
+            assert!(snap(p) == a, "C14/order: slots before the cycle index are not served again in this cycle");
+        }
+        i += 1;
+    }
+    match res {
+        Some(r) => {
+            assert!(transmitted.is_some() && transmitted == first_sender, "C14/order: the request comes from the first slot at or after the cycle index that has something to send");
+            let s = transmitted.unwrap();
+            assert!(last_changed.unwrap() <= s, "C14/order: slots after the sender are untouched");
+            assert!(r.expects_reply() == Some(pre[s].unwrap().address), "C14/order: the request is addressed to that peripheral");
+            assert!(resolves_to(m, m.state.cycle_state, s), "C14/order: the cycle index stays at the sender until its reply or time-out");
+            assert!(!events.cycle_completed, "C14/cycle: no 'cycle completed' while a request is outstanding");
+            kani::cover!(s > idx0, "cover: a declining slot is passed over before the sender");
+        }
+        None => {
+            assert!(n_tx == 0, "C14/turn: no request without a transmission result");
+            if events.cycle_completed {
+                assert!(first_sender.is_none(), "C14/cycle: 'cycle completed' only when every remaining peripheral had its turn and declined");
+                assert!(m.state.cycle_state == CycleState::DataExchange(0), "C14/cycle: the next cycle starts at the first slot");
+                // everybody at/after the index was visited: those to be declared offline are offline now
+                let mut i = idx0;
+                while i < n {
+                    if let Some(p) = peek(&m.peripherals, i) {
+                        assert!(!off[i] || !snap(p).live, "C14/cycle: a completed cycle has given every remaining peripheral its turn");
+                    }
+                    i += 1;
+                }
+                kani::cover!(occupied_from(m, 0).is_none(), "cover: cycle completes with no peripheral configured");
+                kani::cover!(n_off == 1, "cover: cycle completes with an Offline event");
+            } else {
+                // the turn ended early: only legitimate to report an event
+                assert!(n_off == 1, "C14/cycle: a turn without request and without 'cycle completed' only ends early to report an event");
+                match first_sender {
+                    Some(fs) => assert!(off_slot < fs, "C14/order: nobody with something to send is passed over"),
+                    None => {}
+                }
+                let next = occupied_from(m, off_slot + 1);
+                assert!(next.is_some() && resolves_to(m, m.state.cycle_state, next.unwrap()), "C14/order: the cycle continues with the slot after the one that raised the event");
+                assert!(last_changed.unwrap() <= off_slot, "C14/order: slots after the reporting one are untouched");
+                kani::cover!(true, "cover: turn ended early to report an Offline event");
+            }
+        }
+    }
+}
+
+fn any_master_state(nslots: usize) -> DpMasterState {
+    let op = match kani::any::<u8>() {
+        0 => OperatingState::Stop,
+        1 => OperatingState::Clear,
+        _ => OperatingState::Operate,
+    };
+    let cycle_state = if kani::any() {
+        CycleState::CycleCompleted
+    } else {
+        let j: u8 = kani::any();
+        kani::assume(usize::from(j) < nslots || j == 0);
+        CycleState::DataExchange(j)
+    };
+    DpMasterState {
+        operating_state: op,
+        last_global_control: if kani::any() { Some(crate::time::Instant::from_micros(kani::any::<u32>())) } else { None },
+        cycle_state,
+        last_events: Default::default(),
+    }
+}
+
+macro_rules! slot_bufs {
+    ($i:ident, $q:ident, $d:ident) => {
+        let mut $i = [0u8; 1];
+        let mut $q: [u8; 1] = kani::any();
+        let mut $d = [0u8; 1];
+    };
+}
+
+macro_rules! any_slot {
+    ($i:ident, $q:ident, $d:ident, $user:ident, $cfg:ident) => {
+        mk_slot(if kani::any() {
+            Some(any_peripheral(
+                &mut $i[..],
+                &mut $q[..],
+                &mut $d[..],
+                if kani::any() { Some(&$user[..]) } else { None },
+                if kani::any() { Some(&$cfg[..]) } else { None },
+            ))
+        } else {
+            None
+        })
+    };
+}
+
+#[kani::proof]
+#[kani::unwind(26)]
+fn c14_master_transmit_0slots() {
+    let fdl = any_fdl();
+    let mut storage: [crate::dp::PeripheralStorage; 0] = [];
+    let mut m = DpMaster::new(&mut storage[..]);
+    m.state = any_master_state(0);
+    check_master_transmit(&mut m, &fdl);
+}
+
+#[kani::proof]
+#[kani::unwind(26)]
+fn c14_master_transmit_2slots_q() {
+    let fdl = any_fdl();
+    let user: [u8; 1] = kani::any();
+    let cfg: [u8; 1] = kani::any();
+    slot_bufs!(i0, q0, d0);
+    slot_bufs!(i1, q1, d1);
+    let mut storage = [any_slot!(i0, q0, d0, user, cfg), any_slot!(i1, q1, d1, user, cfg)];
+    let mut m = DpMaster::new(&mut storage[..]);
+    m.state = any_master_state(2);
+    check_master_transmit(&mut m, &fdl);
+}
+
+#[kani::proof]
+#[kani::unwind(26)]
+fn c14_master_transmit_3slots_t() {
+    let fdl = any_fdl();
+    let user: [u8; 1] = kani::any();
+    let cfg: [u8; 1] = kani::any();
+    slot_bufs!(i0, q0, d0);
+    slot_bufs!(i1, q1, d1);
+    slot_bufs!(i2, q2, d2);
+    let mut storage = [
+        any_slot!(i0, q0, d0, user, cfg),
+        any_slot!(i1, q1, d1, user, cfg),
+        any_slot!(i2, q2, d2, user, cfg),
+    ];
+    let mut m = DpMaster::new(&mut storage[..]);
+    m.state = any_master_state(3);
+    check_master_transmit(&mut m, &fdl);
+}
